@@ -64,17 +64,18 @@ static TableSpec random_spec(Rng& rng, int ndim, bool specials) {
 }
 static std::vector<std::pair<std::string, std::string>> random_aux(Rng& rng) {
 	static const char* K[] = {"KEYA", "GEOTYPE", "ALONGERKEYNAME", "LEVEL", "HIERARCHKEYWITHAVERYLONGNAME01", "Z9"};
-	static const char* V[] = {"1", "text value", "", "2.5", "it's", "  leading", "trailing  ", "42"};
+	static const char* V[] = {"1", "text value", "", "2.5", "it's", "  leading", "trailing  ", "42", "''", "a'''b", "x='' y='1'", "'"};
+	const unsigned NV = sizeof(V) / sizeof(*V);
 	std::vector<std::pair<std::string, std::string>> a; int n = (int)rng.below(7);
-	for (int i = 0; i < n && i < 6; i++) a.push_back({K[i], V[rng.below(8)]});
+	for (int i = 0; i < n && i < 6; i++) a.push_back({K[i], V[rng.below(NV)]});
 	// names a table may or may not accept (they begin like the structural keywords the reader filters out); whatever the table
 	// accepts it holds, and what it holds must survive the round trip
 	static const char* R[] = {"TYPE_OF_TABLE", "ORDERING_SCHEME", "PERIODICITY", "NAXIS_LABELS", "EXTENDED_INFORMATION", "COMMENTARY_ON_FIT",
 	                          "SIMPLEX_METHOD", "BITPIXEL_DEPTH", "TYPE", "ORDER9", "NAXIS", "PERIOD12", "COMMENT", "EXTEND", "TYPEA", "HISTORY_OF_FIT", "END_OF_TABLE"};
 	// one table in ten carries many keys (the primary header then spans several 2880-byte blocks)
-	if (rng.below(10) == 0) { int many = 40 + (int)rng.below(80); for (int i = 0; i < many; i++) a.push_back({i % 3 ? "K" + std::to_string(1000 + i) : "LONGERKEYNUMBER" + std::to_string(1000 + i), V[rng.below(8)]}); }
+	if (rng.below(10) == 0) { int many = 40 + (int)rng.below(80); for (int i = 0; i < many; i++) a.push_back({i % 3 ? "K" + std::to_string(1000 + i) : "LONGERKEYNUMBER" + std::to_string(1000 + i), V[rng.below(NV)]}); }
 	int m = (int)rng.below(4);
-	for (int i = 0; i < m; i++) a.insert(a.begin() + rng.below(a.size() + 1), {R[rng.below(sizeof(R) / sizeof(*R))], V[rng.below(8)]});
+	for (int i = 0; i < m; i++) a.insert(a.begin() + rng.below(a.size() + 1), {R[rng.below(sizeof(R) / sizeof(*R))], V[rng.below(NV)]});
 	return a;
 }
 
